@@ -263,7 +263,8 @@ impl SingleByteDecoder {
                 total += 1;
                 bytes = &bytes[offset + 1..];
             } else {
-                return total;
+                // The rest of the buffer is ASCII.
+                return total + bytes.len();
             }
         }
     }
